@@ -824,6 +824,18 @@ def Provides(*interfaces):  # pylint:disable=function-redefined
       declaration. The declarations are cached in a weak value dictionary.
     """
     spec = InstanceDeclarations.get(interfaces)
+    if isinstance(spec, ProvidesClass):
+        # Interfaces the class already implemented were elided when
+        # the shared declaration was created. If the class has since
+        # stopped implementing one of them, the declaration can't be
+        # shared any longer.
+        implemented = implementedBy(interfaces[0])
+        bases = spec.__bases__
+        for iface in _normalizeargs(interfaces[1:]):
+            if iface not in bases and not implemented.isOrExtends(iface):
+                spec = None
+                break
+
     if spec is None:
         spec = ProvidesClass(*interfaces)
         InstanceDeclarations[interfaces] = spec
